@@ -2,7 +2,7 @@
 //
 // Level A (pure, deep): every set of <=3 (thorough <=4) subnets over a 72-prefix
 // alphabet x 2 locations -> real codec/Rearranger -> range-point table, read by
-// predecessor search as rdbdriver.GetLocationByMap reads it, for ~400 clients,
+// predecessor search as rdbdriver.GetLocationByMap reads it, for 270 clients,
 // against a brute-force longest-prefix oracle.
 // Level B (real stores): every set of <=2 subnets compiled by the real compilers
 // to CDB (combined and per-family prefix-length sets), RocksDB v1 and v2 keys, in
@@ -46,20 +46,21 @@ func main() {
 	kA := r.Pick(3, 4)
 	if only == "" || only == "A" {
 		la = newLevelA(r, alpha, clients)
-		la.run(kA, start.Add(capSeconds(r.Pick(40, 400))))
+		la.run(kA, start.Add(capSeconds(r.Pick(35, 400))))
 		la.samples()
 	}
 
-	// Levels C and B compile real RocksDB databases; an internal wall-clock cap
-	// (DESIGN 1.6) only ever skips whole cases, in order of increasing size, and
-	// marks the run non-exhaustive. No verdict depends on time.
+	// Internal wall-clock caps (level A: whole enumeration tasks; levels C and B,
+	// which compile real RocksDB databases: whole cases)
+	// (DESIGN 1.6) only ever skip work in order of increasing size and mark the
+	// run non-exhaustive. No verdict depends on time.
 	var lc *levelC
 	if only == "" || only == "C" {
-		lc = runLevelC(r, dir, time.Now().Add(capSeconds(r.Pick(25, 150))))
+		lc = runLevelC(r, dir, time.Now().Add(capSeconds(r.Pick(15, 150))))
 	}
 	var lb *levelB
 	if only == "" || only == "B" {
-		lb = runLevelB(r, dir, start.Add(capSeconds(r.Pick(100, 850))))
+		lb = runLevelB(r, dir, start.Add(capSeconds(r.Pick(75, 850))))
 	}
 	clean()
 	dumpFPs()
